@@ -3,6 +3,7 @@ package planner
 import (
 	"encoding/json"
 	"fmt"
+	"sort"
 	"strings"
 
 	"github.com/buildbuildio/pebbles/common"
@@ -77,15 +78,31 @@ func (sf ScrubFields) Clean(payload map[string]interface{}) {
 
 func (sf ScrubFields) clean(payload map[string]interface{}, path []string, fields map[string][]string) bool {
 	if len(path) == 0 {
-		for typename, fields := range fields {
-			if tn, ok := payload[common.TypenameFieldName]; ok && typename != tn {
-				continue
+		if tn, ok := payload[common.TypenameFieldName]; ok {
+			for typename, fields := range fields {
+				if typename != tn {
+					continue
+				}
+				for _, f := range fields {
+					delete(payload, f)
+				}
+				break
 			}
-
-			for _, f := range fields {
-				delete(payload, f)
+			return len(payload) == 0
+		}
+		// the object does not say what it is: the sub-request was about one type only (a request about
+		// several types asks for __typename), the one with helper fields beyond __typename. Which entry is
+		// used must not depend on the iteration order of the map.
+		typenames := lo.Keys(fields)
+		sort.Strings(typenames)
+		best := ""
+		for _, typename := range typenames {
+			if best == "" || len(fields[typename]) > len(fields[best]) {
+				best = typename
 			}
-			break
+		}
+		for _, f := range fields[best] {
+			delete(payload, f)
 		}
 		return len(payload) == 0
 	}
